@@ -407,7 +407,9 @@ def doHarvest (s : PState) (runId : String) (run : RunM) (mask : Nat) : PState Ã
   match getApp s run.app with
   | none => (s, [])
   | some app =>
-    if s.appTimeout > 0 && s.now - app.lastActivity > s.appTimeout then
+    -- `time.Since(LastActivity) > AppTimeout`: the model clock only moves by explicit `advance` events while real
+    -- time also moves by some Îµ > 0 between any two events, so "advanced by at least the time-out" is `â‰¥` here
+    if s.appTimeout > 0 && s.now - app.lastActivity â‰¥ s.appTimeout then
       -- inactive: the run is shut down and the application forgotten
       let s := delRun s runId
       ({ s with apps := s.apps.filter (Â·.1 != run.app) }, [])
